@@ -1178,6 +1178,10 @@ class Filterbank(ABC):
             raise ValueError(msg)
         nbands = min(nbands, self.header.nchans)
         chan_delays = self.header.get_dmdelays(dm)
+        # Count delays from the earliest channel (see dedisperse); folded samples
+        # keep the time of the reference channel
+        min_delay = int(chan_delays.min())
+        chan_delays = chan_delays - min_delay
         max_delay = int(chan_delays.max())
         gulp = max(2 * max_delay, gulp)
         fold_ar = np.zeros(nbins * nints * nbands, dtype="float32")
@@ -1204,7 +1208,7 @@ class Filterbank(ABC):
                 nbins,
                 nints,
                 nbands,
-                ii * (gulp - max_delay),
+                ii * (gulp - max_delay) - min_delay,
             )
         fold_ar /= count_ar
         fold_ar = fold_ar.reshape(nints, nbands, nbins)
